@@ -1,5 +1,16 @@
 import Drand
-open Drand.Driver
+open Drand.Driver.CacheD
+open Drand.Driver.CbStoreD
+open Drand.Driver.ChainD
+open Drand.Driver.CodecD
+open Drand.Driver.CrashD
+open Drand.Driver.DkgD
+open Drand.Driver.HashD
+open Drand.Driver.RouteD
+open Drand.Driver.SecrecyD
+open Drand.Driver.StoreD
+open Drand.Driver.StreamD
+open Drand.Driver.TimeD
 
 def isWs (c : Char) : Bool := c == ' ' || c == '\t' || c == '\n' || c == '\r'
 
@@ -36,14 +47,21 @@ def main (args : List String) : IO UInt32 := do
   let stdout ← IO.getStdout
   match args with
   | ["time"] => loopPure stdin stdout timeStep; return 0
+  | ["dkgsm"] => loopState stdin stdout dkgStep {}; return 0
   | ["cache"] => loopState stdin stdout cacheStep (Drand.Beacon.Cache.empty 96); return 0
-  | "chain" :: _ => loopState stdin stdout chainStep (Drand.Chain.Stack.init true []); return 0
   | ["stream", backend] => loopState stdin stdout streamStep' (streamDrvInit backend "asis"); return 0
   | ["stream", backend, variant] => loopState stdin stdout streamStep' (streamDrvInit backend variant); return 0
   | ["cbstore"] => loopState stdin stdout cbStep cbDrvInit; return 0
+  | ["chain", backend] =>
+    let (cap, st) := chainInit backend
+    loopState stdin stdout (chainStep cap) st; return 0
   | ["hash"] => loopPure stdin stdout hashStep; return 0
+  | ["secrecy"] => loopPure stdin stdout secrecyStep; return 0
+  | ["codec"] => loopPure stdin stdout codecStep; return 0
+  | "crash" :: _ => loopState stdin stdout crashStep ({} : CrashSt); return 0
   | ["store", backend] =>
     match storeInit backend with
     | some st => loopState stdin stdout storeStep st; return 0
     | none => IO.eprintln "bad backend"; return 2
+  | "route" :: _ => loopState stdin stdout routeStep Drand.Daemon.State.init; return 0
   | _ => IO.eprintln "usage: vdriver <engine>"; return 2
